@@ -1071,27 +1071,43 @@ func randomFunc() func(st funcGen.Stack[Value], cs []Value) (Value, error) {
 	}
 }
 
+// sprintfArg converts a value to the argument passed to the formatter. Lists
+// and maps are converted to their string right here, using a stack derived from
+// the caller's stack. If this is left to the formatter, the closures called
+// while evaluating a lazy list run on a new stack, which is not covered by the
+// recursion guard, and errors end up in the created string.
+func sprintfArg(st funcGen.Stack[Value], v Value) (any, error) {
+	switch v := v.(type) {
+	case String:
+		return string(v), nil
+	case *List:
+		return v.shortString(st.Derive())
+	case Map:
+		return v.ToString(st.Derive())
+	default:
+		return v, nil
+	}
+}
+
 func sprintf(st funcGen.Stack[Value], cs []Value) (Value, error) {
 	switch st.Size() {
 	case 0:
 		return String(""), nil
 	case 1:
-		v := st.Get(0)
-		if st, ok := v.(String); ok {
-			return String(fmt.Sprint(string(st))), nil
-		} else {
-			return String(fmt.Sprint(v)), nil
+		v, err := sprintfArg(st, st.Get(0))
+		if err != nil {
+			return nil, err
 		}
+		return String(fmt.Sprint(v)), nil
 	default:
 		if s, ok := st.Get(0).(String); ok {
 			values := make([]any, st.Size()-1)
 			for i := 1; i < st.Size(); i++ {
-				v := st.Get(i)
-				if st, ok := v.(String); ok {
-					values[i-1] = string(st)
-				} else {
-					values[i-1] = v
+				v, err := sprintfArg(st, st.Get(i))
+				if err != nil {
+					return nil, err
 				}
+				values[i-1] = v
 			}
 			return String(fmt.Sprintf(string(s), values...)), nil
 		} else {
